@@ -13,9 +13,10 @@ type IOError struct {
 
 // errCode: 1X
 const (
-	ErrFileNotFound = 10
-	ErrReadFile     = 11
-	ErrReadVarInput = 12
+	ErrFileNotFound    = 10
+	ErrReadFile        = 11
+	ErrReadVarInput    = 12
+	ErrInvalidEncoding = 13
 )
 
 func (e *IOError) Error() string {
@@ -47,6 +48,15 @@ func ReadFileError(err error, path string) *IOError {
 	return &IOError{
 		Code:    ErrReadFile,
 		Message: fmt.Sprintf("读取I/O流失败：%s", errText),
+		Path:    path,
+	}
+}
+
+// InvalidEncoding - the input is not valid UTF-8
+func InvalidEncoding(path string) *IOError {
+	return &IOError{
+		Code:    ErrInvalidEncoding,
+		Message: "内容不是合法的 UTF-8 编码（代码文件须以 UTF-8 编码储存）",
 		Path:    path,
 	}
 }
